@@ -213,3 +213,68 @@ Example schedule_example :
   step_lazy_into0 Z Z.add 0%Z [mkThr true 99; mkThr true 98; mkThr false 97; mkThr true 96]%Z
      (events Z nat (fun j => Z.of_nat (10 ^ j)) [(2, 1); (1, 0); (2, 2)]%nat) = Some 111%Z.
 Proof. exact schedule_example_proof. Qed.
+
+(* ======================================================================================
+   Round 3 — the CLASS "per-thread clones that are not deep".
+   The batch evaluation routines (XxxDataSet.EvaluateLogPdf) clone every emission once per thread
+   and call LogPdf on the clones concurrently; LogPdf writes the scratch cells of the objects it
+   evaluates.  The write-set model is extended by these cells (ModelScratch.v). *)
+From ADV Require Import C17.ModelScratch C17.ScratchGenDefs C17.Scratch_gen C17.ProofsScratch.
+
+(* (2') a job's footprint = its thread's accumulator cells + its own output cells + (any part of) the
+   scratch cells reachable from its thread's clones.  If the per-thread clones are FRESH (the
+   footprints of different threads are disjoint), then for every pool size, every assignment of jobs
+   to threads and every selection of scratch cells the evaluations touch, two jobs on different
+   threads have disjoint write sets. *)
+Theorem fresh_clones_give_disjoint_write_sets :
+  forall (fp : clone_table) (k : nat) (sigma : nat -> nat) (used : nat -> list scell -> list scell) (nacc nout : nat),
+    fresh_table fp k ->
+    (forall j l c, In c (used j l) -> In c l) ->
+    forall j1 j2, (sigma j1 < k)%nat -> (sigma j2 < k)%nat -> sigma j1 <> sigma j2 -> j1 <> j2 ->
+    forall x, In x (job_footprint fp sigma used nacc nout j1) -> ~ In x (job_footprint fp sigma used nacc nout j2).
+Proof. exact fresh_footprints_disjoint. Qed.
+
+(* a DEEP Clone() (every scratch cell newly allocated, as generic.Mixture.Clone() does with
+   t1.CloneScalar() ...) yields a fresh table for every pool size, every object size and every
+   allocator position - and the clones do not touch the original either *)
+Theorem deep_clones_are_fresh :
+  forall (orig : list scell) (n0 k : nat),
+    fresh_table (table_of (deep (length orig)) orig n0) k /\
+    ((forall c, In c orig -> (c < n0)%nat) -> forall t c, In c (table_of (deep (length orig)) orig n0 t) -> ~ In c orig).
+Proof. exact deep_clones_fresh_both. Qed.
+
+(* a Clone() that copies even ONE scratch field instead of allocating it (mask i = true: `r := *obj`)
+   is not fresh on any pool of >= 2 threads, and any two jobs on any two threads that use their whole
+   footprint then write a common cell: the seeded regression of generic.Mixture.Clone() as a theorem *)
+Theorem shallow_clone_refuted :
+  forall (mask : list bool) (orig : list scell) (n0 i : nat),
+    nth i mask false = true -> (i < length orig)%nat ->
+    (forall k, (2 <= k)%nat -> ~ fresh_table (table_of mask orig n0) k) /\
+    (forall sigma nacc nout j1 j2,
+        exists x, In x (job_footprint (table_of mask orig n0) sigma (fun _ l => l) nacc nout j1) /\
+                  In x (job_footprint (table_of mask orig n0) sigma (fun _ l => l) nacc nout j2)).
+Proof. exact shallow_clone_both. Qed.
+
+(* the hypotheses are satisfiable: the (t1, t2, t3) of a mixture at addresses 10..12, eight threads *)
+Example deep_and_struct_copy_clone_of_a_mixture :
+  fresh_tableb (table_of [false; false; false] [10; 11; 12]%nat 20) 8 = true /\
+  fresh_tableb (table_of [true; true; true] [10; 11; 12]%nat 20) 2 = false.
+Proof. exact (conj mixture_clone_deep_example mixture_clone_struct_copy_example). Qed.
+
+(* (2'') decided on the SOURCE (Scratch_gen.v, regenerated by go2coq_c17 on every run): the evaluation
+   calls of the job closures, followed one level into every LogPdf / Likelihood / Posterior body of the
+   distribution types (the generic Mixture's t1, t2, t3 among them), write only receiver fields that
+   (a) are reached through the closure's own thread id or the job index, and (b) the type's Clone()
+   allocates afresh. *)
+Theorem generated_scratch_writes_are_thread_owned_and_fresh :
+  forallb gsite_ok (map (expand_site gen_scratch) gen_sites) = true /\
+  scratch_ok gen_scratch gen_clone_fields = true /\
+  follows_generic_mixture gen_scratch = true /\
+  (1 <= expanded_writes gen_scratch gen_sites)%nat.
+Proof. exact (conj gen_expanded_ok (conj gen_scratch_fresh (conj gen_scratch_followed gen_expanded_nonempty))). Qed.
+
+Theorem generated_scratch_write_separates :
+  forall s a, In s gen_sites -> In a (flat_map (expand_call gen_scratch) (gs_acc s)) -> g_local a = false ->
+  forall t1 t2 j1 j2 : nat, t1 <> t2 -> j1 <> j2 ->
+    map (inst_idx t1 j1) (g_idx a) <> map (inst_idx t2 j2) (g_idx a).
+Proof. exact expanded_write_separates. Qed.
